@@ -66,5 +66,33 @@ theorem consume_all {unpub cinq hold : List Ent} (n : Nat) : ∀ {s : St} {inq :
       refine ⟨by rw [b1], ?_, by rw [b3, a4], b4⟩
       rw [b2, a2, List.append_assoc, List.singleton_append]
 
+/-- how many completions the kernel can post: the room left by the unreaped entries and the held one -/
+theorem post_count {inq unpub hold : List Ent} (vs : List Nat) : ∀ {s : St} {cinq : List Ent},
+    Inv k kc c cc s inq unpub cinq hold →
+    (kPost vs s).2 = min vs.length (2 ^ kc - (hold.length + cinq.length)) ∧
+    (kPost vs s).1.posted.map (·.val) = s.posted.map (·.val) ++ vs.take (kPost vs s).2 := by
+  induction vs with
+  | nil => intro s cinq h; simp [kPost]
+  | cons v vs ih =>
+    intro s cinq h
+    obtain ⟨h0, h1⟩ := inv_post1 h v
+    by_cases hlt : hold.length + cinq.length < 2 ^ kc
+    · obtain ⟨a1, a2⟩ := h1 hlt
+      obtain ⟨b1, b2⟩ := ih a2
+      have hk1 : kPost1 s v = ((kPost1 s v).1, true) := by rw [← a1]
+      have hp : (kPost1 s v).1.posted.map (·.val) = s.posted.map (·.val) ++ [v] := by
+        rw [a2.posted_eq, kPost1_reaped, h.posted_eq]; simp
+      rw [kPost_cons, hk1]
+      simp only
+      refine ⟨?_, ?_⟩
+      · rw [b1]; simp only [List.length_append, List.length_cons, List.length_nil]; omega
+      · rw [b2, hp]; simp
+    · have := h0 hlt
+      rw [kPost_cons, this]
+      simp only
+      refine ⟨?_, by simp⟩
+      have : 2 ^ kc - (hold.length + cinq.length) = 0 := by omega
+      rw [this]; simp
+
 end
 end TinyVerif.Ring
